@@ -498,18 +498,22 @@ class Builtins:
                 r, st3 = self.alloc(st2.assume(axA), HObj("set", R))
                 res += k(r, st3)
             else:
-                R = cx.fresh("mappeddict", MapV)
                 kv, vv = nv
                 kt, vt = as_val(cx, kv, st2), as_val(cx, vv, st2)
-                y = z3.Const("y!c", Val)
-                j2 = z3.Int("j2!c")
-                # last writer wins for duplicate keys
+                if not pair_mode:
+                    raise Unsupported("dict comprehension over a non-pair iterable")
+                from z3 import z3util
+                kvars = {str(v) for v in z3util.get_vars(kt)}
+                vvars = {str(v) for v in z3util.get_vars(vt)}
+                if str(yj) in kvars or str(xj) in vvars:
+                    raise Unsupported("dict comprehension whose key depends on the value variable")
+                MK = cx.map_fn(kt, xj)(S_k)
+                MV = cx.map_fn(vt, yj)(S_v)
                 axA = z3.And(
-                    z3.ForAll([j], z3.Implies(z3.And(0 <= j, j < n), at(ncond, j))),
-                    z3.ForAll([j], z3.Implies(
-                        z3.And(0 <= j, j < n, z3.ForAll([j2], z3.Implies(z3.And(j < j2, j2 < n), at(kt, j2) != at(kt, j)))),
-                        R[at(kt, j)] == Opt.some(at(vt, j)))),
-                    z3.ForAll([y], z3.Implies(R[y] != Opt.none, z3.Exists([j], z3.And(0 <= j, j < n, at(kt, j) == y)))))
+                    z3.Length(MK) == n, z3.Length(MV) == n,
+                    z3.ForAll([j], z3.Implies(z3.And(0 <= j, j < n), z3.And(
+                        at(ncond, j), MK[j] == z3.substitute(kt, (xj, S_k[j])), MV[j] == z3.substitute(vt, (yj, S_v[j]))))))
+                R = self.dict_fold(EMPTY_MAP, MK, MV, n)
                 r, st3 = self.alloc(st2.assume(axA), HObj("dict", R))
                 res += k(r, st3)
             # outcomes B_i
@@ -1092,6 +1096,23 @@ class Builtins:
             return it.ks, it.vs
         return None
 
+    DICT_FOLD = z3.Function("dict_fold", MapV, SeqV, SeqV, z3.IntSort(), MapV)
+
+    def dict_fold(self, m, ks, vs, i):
+        """The map obtained from m by executing d[ks[j]] = vs[j] for j = 0 .. i-1 in order (the meaning of
+        dict.update / dict(pairs) on a sequence of pairs).  One unfolding step is provided per requested term."""
+        t = self.DICT_FOLD(m, ks, vs, i)
+        prev = self.DICT_FOLD(m, ks, vs, i - 1)
+        self.cx.axioms.append(z3.And(
+            z3.Implies(i == 0, t == m),
+            z3.Implies(z3.And(i >= 1, i <= z3.Length(ks)), t == z3.Store(prev, ks[i - 1], Opt.some(vs[i - 1])))))
+        return t
+
+    @staticmethod
+    def overlay(m, o):
+        x = z3.Const("x!ov", Val)
+        return z3.Lambda([x], ite(o[x] != Opt.none, o[x], m[x]))
+
     def map_update(self, m, ks, vs):
         """fresh map = m updated with pairs in order (last writer wins), pointwise."""
         cx = self.cx
@@ -1120,9 +1141,7 @@ class Builtins:
         src = args[0]
         if isinstance(src, VRef) and st.heap[src.oid].kind == "dict":
             o = st.heap[src.oid].payload
-            x = z3.Const("x!m", Val)
-            new = z3.Lambda([x], ite(o[x] != Opt.none, o[x], m[x]))
-            return k(NONE, self.set_payload(ref, new, st))
+            return k(NONE, self.set_payload(ref, self.overlay(m, o), st))
         if isinstance(src, VRef) and st.heap[src.oid].kind == "list" and "pyitems" in st.heap[src.oid].meta:
             new = m
             for it in st.heap[src.oid].meta["pyitems"]:
@@ -1134,8 +1153,7 @@ class Builtins:
             if isinstance(src, VGen):
                 raise Unsupported("dict fed by a generator expression")
             raise Unsupported("dict.update from %r" % (src,))
-        r, ax = self.map_update(m, pr[0], pr[1])
-        return k(NONE, self.set_payload(ref, r, st.assume(ax)))
+        return k(NONE, self.set_payload(ref, self.dict_fold(m, pr[0], pr[1], z3.Length(pr[0])), st))
 
     def m_dict_ior(self, ref, args, kwargs, st, k):
         return self.m_dict_update(ref, args, kwargs, st, lambda _n, st2: k(ref, st2))
